@@ -185,6 +185,23 @@ class Gen:
                         routes.append({"action": a3, "skip": False,
                                        "after": {"name": self.hname("after_" + a3.lower()), "sig": KW, "async": False, "out": ("ret",)}})
                     cases.append(("unhandled", version, routes, self.frame("id-%d" % rng.randrange(99), a, rng.choice(payloads))))
+            # strings derived from the action names (suffixes older releases used for class names, other spellings):
+            # none of them is an action, whatever registered handler their stem may name
+            derive = [lambda a: a + "Payload", lambda a: a + "Request", lambda a: a + "Response", lambda a: a + "Req",
+                      lambda a: a + ".req", lambda a: a + "Conf", lambda a: "On" + a, lambda a: a.lower(), lambda a: a.upper(),
+                      lambda a: a.swapcase(), lambda a: a + " ", lambda a: " " + a, lambda a: a + "\n", lambda a: a[:-1],
+                      lambda a: a + a[-1], lambda a: snake({a: 0}).popitem()[0], lambda a: "call." + a, lambda a: a + "\u0000"]
+            stems = sorted(acts) if full else (["Heartbeat", "DataTransfer"] + sorted(acts)[::9])
+            for di, f in enumerate(derive):
+                for ai, a in enumerate(stems):
+                    if not full and ai >= 2 and (ai + di) % 3:
+                        continue
+                    d = f(a)
+                    if d in acts or d in names:
+                        continue
+                    # with and without a handler registered for the stem
+                    routes = [self.route(a, ("ret", {}))] if (ai + di) % 2 else []
+                    cases.append(("unhandled", version, routes, self.frame("dv-%d" % len(cases), d, rng.choice(payloads))))
             for w in weird:
                 routes = [self.route(a2, ("ret", {})) for a2 in rng.sample(acts, 2)]
                 cases.append(("unhandled-weird", version, routes, json.dumps([2, "w", w, rng.choice(payloads)])))
@@ -297,6 +314,69 @@ class Gen:
 # ------------------------------------------------------------------------------------------ evaluation
 def norm(case):
     return case if len(case) == 5 else tuple(case) + ({},)
+
+
+def run_repeats(rep, cases, prop_id, kinds, n=3, limit=40):
+    """The same frame n times on ONE endpoint through the real receive loop: every repetition must be handled
+    exactly like the first (same handler invocation, same reply) -- an endpoint keeps no state between CALLs that
+    could change how the next one is validated, dispatched or answered."""
+    done = 0
+    for (kind, version, routes, raw, info) in map(norm, cases):
+        if not any(kind.startswith(k) for k in kinds) or info.get("send_ok") is False or info.get("prelude") or not isinstance(raw, str):
+            continue
+        if len(raw) > 20000:
+            continue
+        done += 1
+        if done > limit:
+            break
+        seq, how = D.observe_loop(version, routes, [raw] * n, "closed", False)
+        rep.count("repeat:" + json.dumps([version, repr(routes), raw], default=repr))
+        per, cur = {}, -1
+        for e in seq:
+            if e[0] == "recv":
+                cur = e[1]
+            elif e[0] == "handler":
+                per.setdefault(cur, []).append(("handler", e[1], json.dumps(e[2], sort_keys=True, default=repr), repr(e[3])))
+            elif e[0] == "send":
+                per.setdefault(cur, []).append(("send", e[1]))
+        first = per.get(0, [])
+        for i in range(1, n):
+            if per.get(i, []) != first:
+                rep.violation("%s:state-dependent:%s:%s:%s" % (prop_id, kind, version, (O_parse_action(raw) or "?")),
+                              "the same frame sent %d times to one endpoint: repetition %d was handled as %r, the first as %r" % (
+                                  n, i + 1, per.get(i, [])[:3], first[:3]),
+                              {"kind": "repeat", "stratum": kind, "version": version, "routes": routes, "frame": raw, "times": n,
+                               "observation": seq, "ended": how})
+                break
+    rep.coverage["repeated_frames"] = rep.coverage.get("repeated_frames", 0) + done
+
+
+def replay_repeat(d):
+    routes = d["routes"]
+    for r in routes:
+        for k in ("on", "after"):
+            if r.get(k):
+                r[k]["out"] = tuple(r[k]["out"])
+    n = d.get("times", 3)
+    seq, how = D.observe_loop(d["version"], routes, [d["frame"]] * n, "closed", False)
+    per, cur = {}, -1
+    for e in seq:
+        if e[0] == "recv":
+            cur = e[1]
+        elif e[0] in ("handler", "send"):
+            per.setdefault(cur, []).append(e[:2])
+    print("per repetition:", {k: v for k, v in per.items()})
+    ok = all(per.get(i, []) == per.get(0, []) for i in range(1, n))
+    print("HOLDS" if ok else "FAILS")
+    return 0 if ok else 1
+
+
+def O_parse_action(raw):
+    try:
+        fr = json.loads(raw)
+        return fr[2] if isinstance(fr, list) and len(fr) > 2 and isinstance(fr[2], str) else None
+    except ValueError:
+        return None
 
 
 def run_cases(rep, cases, tag, prop_id, oracle, async_modes=(False,), shard_size=120, view="VFull", kinds=None):
